@@ -6,7 +6,7 @@ package pogreb
 // database lock. It lets the verification harness place other operations deterministically.
 var VerifYield func(point string)
 
-// VerifSeedOverride, when set, replaces the hash seed chosen by Open.
+// VerifSeedOverride, when set, replaces the random hash seed Open draws for an empty index.
 var VerifSeedOverride *uint32
 
 func verifYield(point string) {
@@ -16,7 +16,7 @@ func verifYield(point string) {
 }
 
 func verifSeed(db *DB) {
-	if s := VerifSeedOverride; s != nil {
+	if s := VerifSeedOverride; s != nil && db.index.count() == 0 {
 		db.hashSeed = *s
 	}
 }
